@@ -95,7 +95,7 @@ func (f *Formatter) formatConditionLines(expr ast.Expression) ([]string, bool, b
 			}
 			if i < len(ops) {
 				last := opLines[len(opLines)-1]
-				if idx := lineCommentIndex(last); idx >= 0 {
+				if idx := lineCommentIndex(last); idx > 0 && !strings.Contains(last[idx:], "\n") {
 					// The operand ends with a line comment: the operator must be placed before it, not inside it.
 					// The comment takes the following line, where it stays when the output is formatted again
 					opLines[len(opLines)-1] = strings.TrimRight(last[:idx], " ") + " " + ops[i]
